@@ -761,6 +761,17 @@ def byron_recrc_addresses():
                     payload = _cbor_head(4, arity) + b"".join(items)
                     crc = zlib.crc32(payload) & 0xffffffff
                     out.append(list(b"\x82\xd8\x18" + bstr(payload) + _cbor_head(0, crc)))
+    # a valid payload in envelopes that only LOOK like a Byron address: the outer array announced in a longer head form (the first byte
+    # is then 0x98..0x9b / 0x9f - not a Byron header), and a checksum field wider than 32 bits whose LOW word is the right CRC
+    for k in (1, 2, 3):
+        payload = b"\x83" + bstr(bytes([k]) * 28) + b"\xa0\x00"
+        crc = zlib.crc32(payload) & 0xffffffff
+        inner = b"\xd8\x18" + bstr(payload)
+        for head, tail in ((b"\x98\x02", b""), (b"\x99\x00\x02", b""), (b"\x9a\x00\x00\x00\x02", b""), (b"\x9b" + (2).to_bytes(8, "big"), b""), (b"\x9f", b"\xff")):
+            out.append(list(head + inner + _cbor_head(0, crc) + tail))
+        for hi in (1, 0x80000000, 0xffffffff):
+            out.append(list(b"\x82" + inner + b"\x1b" + hi.to_bytes(4, "big") + crc.to_bytes(4, "big")))
+        # (the same inside an output: an embedded address that is not valid must be kept verbatim)
     # well-formed ordinary addresses whose checksum is a SMALL number (encodes in fewer bytes than the usual 5): found by search
     for bound, want in ((1 << 16, 3), (1 << 8, 1)):
         found, k = 0, 0
